@@ -509,6 +509,13 @@ def run_program(prog, chooser, seed, line_budget=0, cut_w2i=None, remote_backend
                     final["after_loss_" + name] = "OSError"
                 except Exception as e:  # noqa
                     final["after_loss_" + name] = type(e).__name__
+            # a channel that was open when the connection broke: later receive / waitclose raise EOFError
+            for name, f in (("receive", lambda: spare.receive(timeout=1)), ("waitclose", lambda: spare.waitclose(timeout=1))):
+                try:
+                    f()
+                    final["after_loss_" + name] = "returns"
+                except Exception as e:  # noqa
+                    final["after_loss_" + name] = type(e).__name__
         sc.stop()
 
     spare = gw.newchannel() if cut_w2i is not None else None
